@@ -72,6 +72,16 @@ type Job struct {
 	FullD2   bool     `json:"full_d2"`
 	Only     string   `json:"only,omitempty"` // replay of one variant: hex of the variant bytes
 	Deadline int64    `json:"deadline,omitempty"`
+	// NoAcctIndex: the node runs with the store option indexByAccount=false (replay protection must not depend on
+	// an optional index)
+	NoAcctIndex bool `json:"no_acct_index,omitempty"`
+}
+
+func (j Job) cfg() []func(*lib.Config) {
+	if !j.NoAcctIndex {
+		return nil
+	}
+	return []func(*lib.Config){func(c *lib.Config) { c.StoreConfig.IndexByAccount = false }}
 }
 
 var deadlineMs int64
@@ -106,6 +116,7 @@ type Hit struct {
 	Diff     []string `json:"diff"`
 	Commit   string   `json:"commit,omitempty"`
 	SameCont bool     `json:"decodes_to_same_content"`
+	NoAcct   bool     `json:"no_account_index,omitempty"`
 }
 
 type ClassStat struct {
@@ -181,7 +192,7 @@ func probe(l *txlab.Lab, txs [][]byte, ref []env.KV) (executed bool, diff []txla
 func runReplay(j Job) (res Result) {
 	res = newResult()
 	w := txlab.NewWorld()
-	l, err := txlab.NewLab(w, 2, nil)
+	l, err := txlab.NewLab(w, 2, nil, j.cfg()...)
 	if err != nil {
 		res.Err = err.Error()
 		return
@@ -260,7 +271,7 @@ func runReplay(j Job) (res Result) {
 		}
 		st.Executed++
 		if st.Executed <= 2 {
-			res.Hits = append(res.Hits, Hit{Kind: kind, Class: class, Classes: v.Classes, Depth: depth, Where: where, Desc: v.Desc, Base: j.Base.String(), BaseHex: baseHex,
+			res.Hits = append(res.Hits, Hit{NoAcct: j.NoAcctIndex, Kind: kind, Class: class, Classes: v.Classes, Depth: depth, Where: where, Desc: v.Desc, Base: j.Base.String(), BaseHex: baseHex,
 				VarHex: hex.EncodeToString(v.Raw), Diff: txlab.DescribeDiff(diff, w), SameCont: sameContent(b.Raw, v.Raw)})
 		}
 	}
@@ -765,6 +776,12 @@ func main() {
 	dl := jobDeadline(r, 85*time.Second, 25*time.Minute)
 	defer func() { _ = dl }()
 	jobs = append(jobs, Job{Part: "window"}, Job{Part: "nonce"}, Job{Part: "nonce-history"})
+	for _, b := range bases {
+		// the same variant space on a node that does not index by account (quick: one base per signature scheme family)
+		if !r.Quick() || (b.Msg == fsm.MessageSendName && b.Memo == "" && (b.Kind == txlab.KBLS || b.Kind == txlab.KMS2 || b.Kind == txlab.KRLP || b.Kind == txlab.KRLPV2)) {
+			jobs = append(jobs, Job{Part: "replay", Base: b, Thorough: !r.Quick(), NoAcctIndex: true})
+		}
+	}
 	crossBases := bases[:1]
 	if !r.Quick() {
 		crossBases = bases
@@ -879,7 +896,11 @@ func main() {
 		}
 		what := fmt.Sprintf("base %s; %s at %s: %s\n   base bytes    %s\n   variant bytes %s\n   state beyond the reference block: %v\n   decodes to the same signed content: %v; %s",
 			h.Base, h.Kind, h.Where, h.Desc, h.BaseHex, h.VarHex, h.Diff, h.SameCont, h.Commit)
-		r.Violation(sig, what, map[string]any{"part": "replay", "base": h.Base, "variant_hex": h.VarHex, "class": h.Class, "where": h.Where})
+		if h.NoAcct {
+			sig += ":index-by-account-off"
+			what = "node configured with indexByAccount=false; " + what
+		}
+		r.Violation(sig, what, map[string]any{"part": "replay", "base": h.Base, "variant_hex": h.VarHex, "class": h.Class, "where": h.Where, "no_account_index": h.NoAcct})
 		if len(r.Samples) < 6 && h.Depth <= 1 {
 			r.AddSample(h)
 		}
@@ -949,6 +970,7 @@ func doReplay(r *mc.Run) {
 		Base   string `json:"base"`
 		VarHex string `json:"variant_hex"`
 		Class  string `json:"class"`
+		NoAcct bool   `json:"no_account_index"`
 	}
 	if err := r.LoadReplay(&rp); err != nil {
 		fmt.Println("cannot load replay:", err)
@@ -962,7 +984,7 @@ func doReplay(r *mc.Run) {
 	}
 	ev := 0
 	for i := 0; i < 5; i++ {
-		res := runJob(Job{Part: "replay", Base: base, Only: rp.VarHex})
+		res := runJob(Job{Part: "replay", Base: base, Only: rp.VarHex, NoAcctIndex: rp.NoAcct})
 		ev += res.Evaluations
 		n := 0
 		for _, h := range res.Hits {
